@@ -30,7 +30,9 @@ let fmt16_o (b : z) : z list =
   let k = hex_of_z b in
   match Hashtbl.find_opt ftab k with Some r -> r | None -> raise (Miss ("F " ^ k))
 
-let kind = Array.make 64 ' '
+let nv = 2048
+let kind = Array.make nv ' '
+let quiet = ref false      (* `quiet 1`: no variable dump on the lines of declaration operations *)
 let world = ref empty_world
 let hid = ref "?"
 let gst = ref g_start
@@ -39,7 +41,7 @@ let saveok = Array.make 8 false   (* sc_options_save is legal only after a succe
 
 let dump () =
   let b = Buffer.create 256 in
-  for v = 0 to 63 do
+  for v = 0 to nv - 1 do
     if kind.(v) <> ' ' then begin
       let x = st_get !world.w_store (nat_of_int v) in
       Buffer.add_string b (Printf.sprintf " v%d=%c" v kind.(v));
@@ -77,7 +79,8 @@ let run_op (name : string) (o : op) : string =
   world := w;
   let extra = if int_of_z left <> 0 then Printf.sprintf " EVENTS_LEFT %d" (int_of_z left) else "" in
   let r = int_of_z rc in
-  Printf.sprintf "%s r=%d |%s%s" name r (dump ()) (if name = "parse" && r = -98 then " EVENTS_SHORT" else extra)
+  let d = if !quiet && (name = "new" || name = "kv" || name = "add" || name = "sub") then "" else dump () in
+  Printf.sprintf "%s r=%d |%s%s" name r d (if name = "parse" && r = -98 then " EVENTS_SHORT" else extra)
 
 let () = iter_lines (fun line ->
   match words line with
@@ -89,7 +92,7 @@ let () = iter_lines (fun line ->
         match op with
         | "T" -> Hashtbl.replace ttab a.(0) (z_of_hex a.(1), a.(2) = "1"); ""
         | "F" -> Hashtbl.replace ftab a.(0) (bytes_of_tok a.(1)); ""
-        | "H" -> world := empty_world; Array.fill kind 0 64 ' '; hid := a.(0); "H " ^ a.(0)
+        | "H" -> world := empty_world; Array.fill kind 0 nv ' '; quiet := false; hid := a.(0); "H " ^ a.(0)
         | "E" -> "E " ^ !hid ^ " mem=ok"
         | "new" -> saveok.(int_of_string a.(0)) <- false; run_op op (ONew (nat_of_int (int_of_string a.(0))))
         | "kv" ->
@@ -162,6 +165,7 @@ let () = iter_lines (fun line ->
         | "sets" -> run_op op (OSetVar (nat_of_int (int_of_string a.(0)), VS (ostr_of_tok a.(1))))
         | "destroy" -> run_op op (ODestroy (nat_of_int (int_of_string a.(0))))
         | "summary" -> Printf.sprintf "summary r=0 |%s" (dump ())
+        | "quiet" -> quiet := (a.(0) <> "0"); Printf.sprintf "quiet r=0 |%s" (dump ())
         | "dirty" -> Printf.sprintf "dirty r=0 |%s" (dump ())        (* stack content: not part of the model's world *)
         | "strtol" ->
           let (v, e) = strtol (bytes_of_tok a.(0)) in
